@@ -17,7 +17,7 @@ def pairs(tier):
 
     out = []
     nparts_list = [1, 2, 3, 5, 9] if tier == "quick" else list(range(1, 10))
-    heavy_max = 5 if tier == "quick" else 7  # groupby / unique / merge terms are nested group reductions: bounded harder
+    heavy_max = 5  # (also in the thorough tier: 6+ single-row partitions time z3 out)  groupby / unique / merge terms are nested group reductions: bounded harder
     for n in nparts_list:
         srcL = Src("L", n, LCOLS, n, how="delayed", cuts=tuple(range(n + 1)))
         P = lambda text, srcs=None: Program(text, srcs or [srcL], ordered=False, family="F10", note=f"n={n}", env_globals={"dx": dx})
